@@ -236,6 +236,42 @@ def run(chk, scratch):
         if chk.violations and not getattr(chk, "witness_files", None):
             chk.witness_files = [os.path.join(d, f) for f in os.listdir(d) if f.endswith((".bam", ".bai", ".gtf", ".fa", ".tsv"))]
         shutil.rmtree(out, ignore_errors=True)
+    # two experiments in ONE invocation (tag mode, ungroupable reads in both, -t 1 and -t 2): the second experiment sees the same reads as the
+    # first one and must produce the same grouped tables, with the NA column
+    for threads in ((1, 2) if thorough else (1,)):
+        d = os.path.join(scratch, "two_exp_t%d" % threads)
+        w, truth, groups = make_world(chk.seed * 100 + 77, "tag", 5)
+        os.makedirs(d)
+        w.write_fasta(os.path.join(d, "g.fa"))
+        w.write_gtf(os.path.join(d, "a.gtf"))
+        w.write_bam(os.path.join(d, "r.bam"))
+        shutil.copy(os.path.join(d, "r.bam"), os.path.join(d, "r2.bam"))
+        shutil.copy(os.path.join(d, "r.bam.bai"), os.path.join(d, "r2.bam.bai"))
+        with open(os.path.join(d, "exp.yaml"), "w") as f:
+            f.write('[\n  data format: "bam",\n  {\n    name: "EXA",\n    long read files: ["%s"],\n    labels: ["a"]\n  },\n'
+                    '  {\n    name: "EXB",\n    long read files: ["%s"],\n    labels: ["b"]\n  }\n]\n' % (os.path.join(d, "r.bam"), os.path.join(d, "r2.bam")))
+        out = os.path.join(d, "out")
+        r = runner.run_isoquant(["-o", out, "--yaml", os.path.join(d, "exp.yaml"), "-d", "nanopore", "-r", os.path.join(d, "g.fa"), "-g", os.path.join(d, "a.gtf"),
+                                 "--complete_genedb", "-t", str(threads), "--no_gzip", "--force", "--read_group", "tag:CB", "--no_model_construction"],
+                                os.path.join(d, "home"))
+        desc = "two experiments in one invocation, tag mode, threads=%d" % threads
+        wit = {"scenario": "two-experiments", "threads": threads}
+        chk.note()
+        if r["rc"] is None:
+            chk.inconclusive.append("watchdog expired: " + desc)
+        elif r["rc"] != 0:
+            chk.violation("run-aborted:tag:ungroupable-read:later-experiment", "%s: exit %s: %s" % (desc, r["rc"], r["out"][-500:].replace("\n", " | ")), wit)
+        else:
+            for kind in ("gene_grouped_counts.tsv", "transcript_grouped_counts.tsv", "gene_grouped_tpm.tsv"):
+                pa, pb = os.path.join(out, "EXA", "EXA." + kind), os.path.join(out, "EXB", "EXB." + kind)
+                if not (os.path.exists(pa) and os.path.exists(pb)):
+                    chk.violation("grouped-table-missing:later-experiment", "%s: %s missing for one of the experiments" % (desc, kind), wit)
+                elif runner.normalized(pa) != runner.normalized(pb):
+                    chk.violation("grouped-table-differs-between-identical-experiments:" + kind, "%s: %s of EXA and EXB differ although both experiments hold the same reads" % (desc, kind), wit)
+                else:
+                    cells += 1
+            chk.count("two_experiment_runs")
+        shutil.rmtree(d, ignore_errors=True)
     chk.extra["cells_checked"] = cells
     chk.assumptions = ["documented grouping: tag value / last piece of the read id split by the delimiter / table entry / file label; NA when none",
                        "weights as in C02 (strategy with_ambiguous for both levels); worlds without multi-mapped reads"]
